@@ -17,7 +17,7 @@ from engine.modset import ModSets
 from engine.shape import Keyer
 from engine.facts import AnalysisBroken
 
-UNITS = ['CCL', 'CGraph']
+UNITS = ['CCL', 'CGraph', 'cclLang']
 S = 'ccl::semantic::'
 SCHEMA = S + 'Schema'
 THES = S + 'Thesaurus'
@@ -398,10 +398,30 @@ def _on_term_change(db, r3):
         problems.append('definition closure is not taken from DefGraph()')
     if holder is None or holder not in a2:
         problems.append('definitions are refreshed for ExpandOutputs(%s) instead of the whole term closure: definitions that mention an indirectly affected term stay stale' % sorted(a2))
-    loops = [n for n in f.walk() if n['k'] == 'CXXForRangeStmt']
+    # the loops that refresh (a loop that only drops cached resolutions before the refresh is not counted)
+    loops = [n for n in f.walk() if n['k'] == 'CXXForRangeStmt' and any((c.get('cs') or '').endswith('::UpdateFrom') for c in f.calls(f.stmts[n['body']]))]
     upd = [n for n in f.calls() if (n.get('cs') or '').endswith('::UpdateFrom')]
     if len(loops) != 2 or len(upd) != 2:
-        problems.append('expected one refresh loop over terms and one over definitions')
+        # the term loop may live in a helper that resolves loops of references as a unit: then the terms are decided by evaluation
+        # (Thesaurus::OnTermChange interpreted: a chain t1 <- t2 <- t3 is refreshed through to t3, loops are idempotent) and only the
+        # definition loop is required here
+        class _Probe:
+            def __init__(self):
+                self.bad = []
+            def ok(self, *a, **k):
+                pass
+            def violation(self, inst, where, msg):
+                self.bad.append((inst, msg))
+            def broken(self, msg):
+                self.bad.append(('broken', msg))
+        probe = _Probe()
+        from rules import C17
+        C17.resolution_idempotent_rule(db, probe)
+        def_loops = [n for n in loops if any((c.get('cs') or '').endswith('::UpdateFrom') and 'definition' in (c.get('txt') or '') for c in f.calls(f.stmts[n['body']]))]
+        if probe.bad:
+            problems.append('expected one refresh loop over terms and one over definitions (and the evaluated refresh does not hold: %s)' % probe.bad[0][1][:120])
+        elif len(def_loops) != 1:
+            problems.append('expected one refresh loop over the definitions of the whole closure')
     else:
         sorted_first = any(c.get('cs') == G + '::Sort' for c in f.calls())
         if not sorted_first:
